@@ -54,6 +54,32 @@ static std::vector<Spec> allCircuits() {
               if (rowVariant >= 8) s.rows = {mkRow(-5, 7, 0, 3, ro, 0, -9), mkRow(1, 4, 2, 3, oFS, 0, -9), mkRow(6, 30, 2, 3, oS, 0, -9)};
               v.push_back(s);
             }
+  // sizes beyond toy range (counts above 256 matter to the Python side: small integers are cached objects there): 150 cells in a
+  // chain of 149 two-pin nets; 12 cells with 300 nets; 300 cells without nets; 40 rows
+  {
+    Spec a;
+    for (int r = 0; r < 40; ++r) a.rows.push_back(mkRow(0, 60, r, 2, r % 2 ? oFS : oN));
+    for (int i = 0; i < 150; ++i) { CellSpec c; c.w = 1 + i % 3; c.h = 2; c.x = (i * 7) % 57; c.y = 2 * (i % 40); c.orient = i % 8; if (c.orient == 2 || c.orient == 3 || c.orient == 6 || c.orient == 7) std::swap(c.w, c.h); c.fixed = i % 11 == 0; a.cells.push_back(c); }
+    for (int i = 0; i + 1 < 150; ++i) { NetSpec n; n.pins = {{i, i % 2, 0}, {i + 1, 0, i % 2}}; n.weight = 1.0f; a.nets.push_back(n); }
+    v.push_back(a);
+    Spec b;
+    b.rows = {mkRow(0, 30, 0, 2, oN), mkRow(0, 30, 1, 2, oFS)};
+    for (int i = 0; i < 12; ++i) { CellSpec c; c.w = 2; c.h = 2; c.x = 2 * i; c.y = 2 * (i % 2); b.cells.push_back(c); }
+    for (int k = 0; k < 300; ++k) { NetSpec n; n.pins = {{k % 12, k % 3, 0}, {(k * 5 + 1) % 12, 0, k % 2}}; if (k % 7 == 0) n.pins.push_back({(k + 3) % 12, 1, 1}); b.nets.push_back(n); }
+    v.push_back(b);
+    Spec c3;
+    c3.rows = {mkRow(0, 400, 0, 1, oN)};
+    for (int i = 0; i < 300; ++i) { CellSpec c; c.w = 1; c.h = 1; c.x = i; c.y = 0; c.fixed = i >= 280; c3.cells.push_back(c); }
+    v.push_back(c3);
+  }
+  // magnitudes the text format must carry: every 5th circuit also translated to large positive / negative coordinates
+  // and scaled by (9973, 4999) - sizes stay below 10^5 and pin offsets from the cell centre within six significant
+  // digits, as the property's domain demands
+  size_t n0 = v.size();
+  for (size_t i = 0; i < n0; i += 5) {
+    v.push_back(translated(v[i], 40000001, -20000003));
+    v.push_back(scaled(v[i], 9973, 4999));
+  }
   return v;
 }
 
